@@ -379,6 +379,18 @@ func (a *Activation) opaqueWithContract(con *FuncContract, recv Val, method stri
 				inner := strings.TrimSuffix(strings.TrimPrefix(srt, "(Array Int "), ")")
 				t.set(out, m.array, sApp("store", cur, m.ref, t.fresh(m.array+"@cv", inner)))
 			}
+			if m.isPrefix && m.array != "" {
+				var names []string
+				for name := range t.arrSort {
+					if strings.HasPrefix(name, m.array) {
+						names = append(names, name)
+					}
+				}
+				sort.Strings(names)
+				for _, name := range names {
+					t.set(out, name, t.fresh(name+"@cv", t.sortOfArray(name)))
+				}
+			}
 		}
 	}
 	for i := 0; i < sig.Params().Len() && i < len(args); i++ {
@@ -566,7 +578,9 @@ func (e *Eng) keepAcrossOpaque(name string) bool {
 // disjoint from real function values.
 func (t *Task) mthTerm(method string, recv string) string {
 	f := t.declareFun("$mth", []string{"Int", "Int"}, "Int")
-	if !t.pureDone["mthaxiom"] {
+	if t.quantDepth > 0 && !t.pureDone["mthaxiom"] {
+		// method identities of quantified receivers need the general injectivity axiom (quantified: costs the
+		// solvers their ability to answer "sat", so it is only added when a specification really needs it)
 		t.pureDone["mthaxiom"] = true
 		fm := t.declareFun("$mthm", []string{"Int"}, "Int")
 		fr := t.declareFun("$mthr", []string{"Int"}, "Int")
@@ -622,6 +636,16 @@ func (a *Activation) invoke0(recv Val, m *types.Func, args []Val, sig *types.Sig
 	a.obligeSafety(st, "nil", "method call on nil interface", sNot(sEq(recv.S, "0")), pos)
 	// 1. statically known dynamic type
 	if recv.Dyn != nil {
+		if fn, _ := t.eng.methodOfPath(recv.Dyn, m); fn == nil {
+			if epath := t.eng.embeddedIfacePath(recv.Dyn, m); epath != nil {
+				rv := t.unbox(st, recv, recv.Dyn)
+				rv.T = recv.Dyn
+				inner := a.recvThroughPath(st, rv, epath, nil, pos)
+				if inner.K == KIface {
+					return a.invoke(inner, m, args, sig, st, pos)
+				}
+			}
+		}
 		if fn, path := t.eng.methodOfPath(recv.Dyn, m); fn != nil {
 			rv := t.unbox(st, recv, recv.Dyn)
 			rv.T = recv.Dyn
@@ -665,15 +689,29 @@ func (a *Activation) invoke0(recv Val, m *types.Func, args []Val, sig *types.Sig
 		cond := sEq(sApp(t.ifTag(), recv.S), sInt(int64(tag)))
 		conds = append(conds, cond)
 		fn, path := t.eng.methodOfPath(CT, m)
-		if fn == nil {
-			continue
-		}
 		bst := st.clone()
 		bst.pc = t.namedPc(sAnd(st.pc, cond))
 		rv := t.unbox(bst, recv, CT)
 		rv.T = CT
-		rv = a.recvThroughPath(bst, rv, path, nil, pos)
-		out, res := a.callStatic(fn, append([]Val{rv}, args...), nil, bst, pos, sig)
+		var out *State
+		var res []Val
+		if fn == nil {
+			// promoted from an embedded interface field: the call goes to that interface value
+			epath := t.eng.embeddedIfacePath(CT, m)
+			if epath == nil || a.depth > maxInlineDepth {
+				continue
+			}
+			inner := a.recvThroughPath(bst, rv, epath, nil, pos)
+			if inner.K != KIface {
+				continue
+			}
+			sub := *a
+			sub.depth = a.depth + 1
+			out, res = a.invoke(inner, m, args, sig, bst, pos)
+		} else {
+			rv = a.recvThroughPath(bst, rv, path, nil, pos)
+			out, res = a.callStatic(fn, append([]Val{rv}, args...), nil, bst, pos, sig)
+		}
 		if out == nil || out.dead {
 			continue
 		}
@@ -790,6 +828,21 @@ func (e *Eng) methodOfPath(T types.Type, m *types.Func) (*ssa.Function, []int) {
 		index = index[:len(index)-1]
 	}
 	return fn, index
+}
+
+// embeddedIfacePath: field path from T to the embedded interface that provides method m (nil when m is concrete).
+func (e *Eng) embeddedIfacePath(T types.Type, m *types.Func) []int {
+	obj, index, _ := types.LookupFieldOrMethod(T, true, m.Pkg(), m.Name())
+	fo, ok := obj.(*types.Func)
+	if !ok || len(index) < 2 {
+		return nil
+	}
+	if sig, ok := fo.Type().(*types.Signature); ok && sig.Recv() != nil {
+		if _, isI := sig.Recv().Type().Underlying().(*types.Interface); isI {
+			return index[:len(index)-1]
+		}
+	}
+	return nil
 }
 
 // recvThroughPath loads the embedded receiver along path (as Go's promoted-method wrappers do).
@@ -1037,10 +1090,11 @@ func (a *Activation) loopHead(li *loopInfo, b *ssa.BasicBlock, st *State) *State
 					}
 					v = a.val(pv, st)
 				}
-				if v.Loc != nil && v.K == KRef {
-					// interior pointer root: the object reference is v.S
+				if v.K == KSlice {
+					pts = append(pts, v.Fields[0].S)
+				} else {
+					pts = append(pts, v.S)
 				}
-				pts = append(pts, v.S)
 			}
 			if !okPts {
 				continue
@@ -1125,6 +1179,9 @@ func (a *Activation) callsFrame(st *State, r string) string {
 	for _, m := range targets {
 		if m.isPrefix && m.array == "" {
 			return "" // modifies *: no claim about the counters
+		}
+		if m.methodCalls {
+			prem = append(prem, sNot(sEq(sApp(t.fkind(), smtName(r)), "3")))
 		}
 		if m.callsOf != "" {
 			prem = append(prem, sNot(sEq(smtName(r), m.callsOf)))
@@ -1230,6 +1287,15 @@ func (a *Activation) classifyAddr(addr ssa.Value, li *loopInfo, depth int) (root
 			// element of an array allocated in the loop (varargs) -> fresh; element of a slice: unknown
 			if al, ok := x.X.(*ssa.Alloc); ok && li.blocks[al.Block()] {
 				return nil, true, false
+			}
+			// element of a slice / array value that is fixed during the loop: only that backing store is written
+			switch xv := x.X.(type) {
+			case *ssa.Parameter, *ssa.FreeVar:
+				return xv, false, true
+			case ssa.Instruction:
+				if !li.blocks[xv.Block()] {
+					return x.X, false, true
+				}
 			}
 			return nil, false, false
 		case *ssa.Alloc:
